@@ -4,7 +4,7 @@ Tie: every `score mate N` of the real engine on positions with short forced mate
 an untrusted solver (harness) produces a strategy tree or a refutation tree and the proven checkers in the compiled Lean
 driver verify it; mate-in-one positions must give `mate 1` and a mating move at every completed depth."""
 import os, concurrent.futures as cf
-import vlib, uci, chessgen
+import vlib, uci, chessgen, xlate
 
 SOLVE_BUDGET = 300000
 
@@ -79,9 +79,13 @@ def _engine_job(eng, net, opts, jobs, recs):
 def run(ctx):
     quick = ctx.tier == "quick"
     r = ctx.rng
+    # first: Props/C04 imports Bridge/SearchGuards, which imports the guards / clamps regenerated from the CURRENT search.cpp
+    xr = xlate.regenerate(ctx, ["SearchGuards"])
     vlib.lean_obligations(ctx)
     ctx.assumptions += ["full playing strength (Strength 1000); synthetic evaluation networks",
-                        "the map from negaScout's return paths to the claim-calculus rules is by reading (DESIGN.md Appendix A)",
+                        "guards, clamps and terminal scores of negaScout / quiesce are regenerated from the source and proved to meet the side conditions of the "
+                        "claim-calculus rules (Bridge/SearchGuards); the data flow between the sites and the remaining return paths are by reading (DESIGN.md Appendix A)",
+                        "static evaluations are not mate scores (|eval| + margin <= MATE0/2): hypothesis of the razoring / futility / reverse-futility site theorems",
                         "mate claims with N > 3 outside the certified tablebase classes are not audited (counted as unverified)"]
     bdir = vlib.cxx_build("plain", ("vharness", "texel", "mknet"))
     vh = os.path.join(bdir, "vharness")
@@ -96,6 +100,7 @@ def run(ctx):
         audit(ctx, vh, recs, set())
         audit_interior(ctx, vh, recs, 10**9, 10**9, also=rp.get("claim"))
         ctx.count(1); ctx.distinct("a"); ctx.distinct("b")
+        xlate.report(ctx, xr)
         return
     # ---- candidate positions and classification by the (untrusted) solver
     ncand = 2500 if quick else 60000
@@ -186,8 +191,9 @@ def run(ctx):
     ctx.cov["rule"] = ("positions: sparse endgames (K+Q/R/minor vs K(+piece/pawn), weak king near the edge), synthetic motifs, late positions of random games; classified by the solver into mate-in-1 / mate-in-2..3 / "
                        "no mate within 3 (all three classes searched); x depth 1..14 x {Hash 1..64, Threads 1..4, UseNullMove on/off} x 3 nets, with and without a cleared hash; every `score mate N` "
                        "(exact or lowerbound, N>0; final exact N<0) audited by Lean-verified certificates; distinct = distinct (position, go, options)")
+    xlate.report(ctx, xr)       # a broken guard tie is reported without input unless the audits above produced a failing input
     if not quick:
-        vlib.leanchecker(ctx, ["TexelVerif.Props.C04"])
+        vlib.leanchecker(ctx, ["TexelVerif.Props.C04", "TexelVerif.Bridge.SearchGuards"])
 
 
 def audit(ctx, vh, recs, m1_jobs):
